@@ -63,6 +63,7 @@ class PDFInterpreterError(PDFException):
 LITERAL_PDF = LIT("PDF")
 LITERAL_TEXT = LIT("Text")
 LITERAL_FONT = LIT("Font")
+LITERAL_TYPE0 = LIT("Type0")
 LITERAL_FORM = LIT("Form")
 LITERAL_IMAGE = LIT("Image")
 
@@ -233,9 +234,13 @@ class PDFResourceManager:
                 font = PDFCIDFont(self, spec)
             elif subtype == "Type0":
                 # Type0 Font
-                dfonts = list_value(spec["DescendantFonts"])
-                assert dfonts
+                dfonts = list_value(spec.get("DescendantFonts"))
+                if not dfonts:
+                    raise PDFFontError("Type0 font without DescendantFonts")
                 subspec = dict_value(dfonts[0]).copy()
+                if resolve1(subspec.get("Subtype")) is LITERAL_TYPE0:
+                    # Would recurse forever if the font is its own descendant.
+                    raise PDFFontError("The descendant of a Type0 font is a Type0 font")
                 for k in ("Encoding", "ToUnicode"):
                     if k in spec:
                         subspec[k] = resolve1(spec[k])
